@@ -93,6 +93,9 @@ type trimCase struct {
 	Entry   string                 `json:"entry"`   // api | bin
 	Compile bool                   `json:"compile"` // also generate Go code from the trimmed program and type-check it
 	Expect  map[string]*fileExpect `json:"expect"`
+	// Reference is the program trimmed on the model side (what the oracle expects to be left).  It is only
+	// used to tell a trimming defect from a Go backend defect when the trimmed program does not compile.
+	Reference map[string]string `json:"reference_trimmed,omitempty"`
 }
 
 // ------------------------------------------------------------- real code
@@ -645,13 +648,6 @@ func judgeCompile(c trimCase, trimmed map[string]string) error {
 		return nil
 	}
 	vt.Class("compile_sample")
-	ok, msg, err := goCompiles(dir, "trimmed", trimmed, c.Main, "go")
-	if err != nil {
-		return err
-	}
-	if !ok {
-		return fmt.Errorf("the original program generates compiling Go code, the trimmed one does not: %s\n%s", msg, texts(trimmed))
-	}
 	files := map[string]string{}
 	for k, v := range c.Files {
 		files[k] = v
@@ -659,14 +655,33 @@ func judgeCompile(c trimCase, trimmed map[string]string) error {
 	if y := configYAML(c.Args, true); y != "" {
 		files["trim_config.yaml"] = y
 	}
-	ok, msg, err = goCompiles(dir, "trimidl", files, c.Main, "go:trim_idl")
+	okT, msgT, err := goCompiles(dir, "trimmed", trimmed, c.Main, "go")
 	if err != nil {
 		return err
 	}
-	if !ok {
-		return fmt.Errorf("the original program generates compiling Go code, with -g go:trim_idl it does not: %s", msg)
+	okI, msgI, err := goCompiles(dir, "trimidl", files, c.Main, "go:trim_idl")
+	if err != nil {
+		return err
 	}
-	return nil
+	if okT && okI {
+		return nil
+	}
+	// a valid trimmed program the Go backend cannot handle is C01's matter: the program trimmed on the
+	// model side decides whose fault it is
+	if len(c.Reference) > 0 {
+		okR, _, err := goCompiles(dir, "reference", c.Reference, c.Main, "go")
+		if err != nil {
+			return err
+		}
+		if !okR {
+			vt.Class("compile_sample_backend_fails_on_reference_trimmed_program")
+			return nil
+		}
+	}
+	if !okT {
+		return fmt.Errorf("the original program generates compiling Go code, the trimmed one does not: %s\n%s", msgT, texts(trimmed))
+	}
+	return fmt.Errorf("the original program generates compiling Go code, with -g go:trim_idl it does not: %s", msgI)
 }
 
 var (
@@ -814,6 +829,7 @@ type oracleInfo struct {
 	nontrivial                                                         bool
 	sharedChainCut                                                     bool
 	cutExtends                                                         []*idl.Def
+	reference                                                          map[string]string
 	svcKept, fnKept, fnDropped                                         int
 	preserveEffective                                                  int
 }
@@ -919,15 +935,16 @@ func expect(p *idl.Program, a trimArgs) (map[string]*fileExpect, oracleInfo, err
 
 	// seeds
 	var alwaysSeeds, fnSeeds, fnSeedsNoBase, fnSeedsNoExc []idl.TypeSeed
-	var presDefs []*idl.Def
+	var presDefs, onlyPresDefs []*idl.Def // always-kept definitions: typedefs and preserved struct-likes
 	for _, f := range files {
 		for _, d := range f.Defs {
 			switch {
 			case d.Kind == idl.KConst:
 				alwaysSeeds = append(alwaysSeeds, idl.TypeSeed{From: f, T: d.Type})
 			case d.Kind == idl.KTypedef:
-				alwaysSeeds = append(alwaysSeeds, idl.TypeSeed{From: f, T: d.Type})
+				presDefs = append(presDefs, d) // the typedef itself; its target follows through the typedef edge
 			case preserved(d):
+				onlyPresDefs = append(onlyPresDefs, d)
 				presDefs = append(presDefs, d)
 			case d.Kind == idl.KService && keptSvc[d]:
 				for _, fn := range d.Funcs {
@@ -955,6 +972,8 @@ func expect(p *idl.Program, a trimArgs) (map[string]*fileExpect, oracleInfo, err
 		}
 	}
 	all := append(append([]idl.TypeSeed{}, alwaysSeeds...), fnSeeds...)
+	kNoPres := idl.Reach(all, presDefs, idl.ReachOpt{})
+	presDefs = append(presDefs, onlyPresDefs...)
 	K := idl.Reach(all, presDefs, idl.ReachOpt{})
 	kNoTd := idl.Reach(all, presDefs, idl.ReachOpt{NoTypedef: true})
 	kNoCont := idl.Reach(all, presDefs, idl.ReachOpt{NoContainer: true})
@@ -962,7 +981,6 @@ func expect(p *idl.Program, a trimArgs) (map[string]*fileExpect, oracleInfo, err
 	kNoCross := idl.Reach(all, presDefs, idl.ReachOpt{NoCross: true})
 	kNoBase := idl.Reach(append(append([]idl.TypeSeed{}, alwaysSeeds...), fnSeedsNoBase...), presDefs, idl.ReachOpt{})
 	kNoExc := idl.Reach(append(append([]idl.TypeSeed{}, alwaysSeeds...), fnSeedsNoExc...), presDefs, idl.ReachOpt{})
-	kNoPres := idl.Reach(all, nil, idl.ReachOpt{})
 
 	// what each file holds, transitively
 	holdsDirect := func(f *idl.File) bool {
@@ -1106,6 +1124,63 @@ func expect(p *idl.Program, a trimArgs) (map[string]*fileExpect, oracleInfo, err
 	}
 	if info.removed == 0 {
 		info.nontrivial = false
+	}
+	// the program trimmed on the model side: prune in place, render, restore
+	type saved struct {
+		defs []*idl.Def
+		incs []*idl.File
+		lits []string
+	}
+	type savedSvc struct {
+		funcs []*idl.Func
+		ext   *idl.Def
+	}
+	sf := map[*idl.File]saved{}
+	ss := map[*idl.Def]savedSvc{}
+	for _, f := range files {
+		sf[f] = saved{f.Defs, f.Includes, f.IncludeLit}
+		var defs []*idl.Def
+		for _, d := range f.Defs {
+			switch {
+			case d.Kind.IsStructLike() && !K[d]:
+				continue
+			case d.Kind == idl.KService:
+				if !keptSvc[d] {
+					continue
+				}
+				ss[d] = savedSvc{d.Funcs, d.Extends}
+				var fns []*idl.Func
+				for _, fn := range d.Funcs {
+					if keptFn[fn] {
+						fns = append(fns, fn)
+					}
+				}
+				d.Funcs = fns
+				if !needUp[d] {
+					d.Extends = nil
+				}
+			}
+			defs = append(defs, d)
+		}
+		var incs []*idl.File
+		var lits []string
+		for i, g := range f.Includes {
+			if exp[f.Path].Includes[g.Path] != "drop" {
+				incs = append(incs, g)
+				lits = append(lits, f.IncludeLit[i])
+			}
+		}
+		f.Defs, f.Includes, f.IncludeLit = defs, incs, lits
+	}
+	info.reference = map[string]string{}
+	for _, f := range p.ReachableFiles() {
+		info.reference[f.Path] = idl.RenderFile(f, nil)
+	}
+	for f, v := range sf {
+		f.Defs, f.Includes, f.IncludeLit = v.defs, v.incs, v.lits
+	}
+	for d, v := range ss {
+		d.Funcs, d.Extends = v.funcs, v.ext
 	}
 	return exp, info, nil
 }
@@ -1262,8 +1337,81 @@ type drawn struct {
 	npres int
 }
 
+// referenced returns every definition some other definition of the program names
+// (in a type expression or in a constant / default value).
+func referenced(p *idl.Program) map[*idl.Def]bool {
+	ref := map[*idl.Def]bool{}
+	mark := func(d *idl.Def) {
+		if d != nil {
+			ref[d] = true
+		}
+	}
+	var val func(v *idl.Value)
+	val = func(v *idl.Value) {
+		if v == nil {
+			return
+		}
+		mark(v.RefConst)
+		mark(v.RefEnum)
+		mark(v.Via)
+		for _, e := range v.List {
+			val(e)
+		}
+		for _, e := range v.Keys {
+			val(e)
+		}
+	}
+	for _, f := range p.Files {
+		for _, d := range f.Defs {
+			idl.DirectRefs(d.Type, mark)
+			val(d.Value)
+			mark(d.Extends)
+			for _, fl := range d.Fields {
+				idl.DirectRefs(fl.Type, mark)
+				val(fl.Default)
+			}
+			for _, fn := range d.Funcs {
+				idl.DirectRefs(fn.Ret, mark)
+				for _, x := range fn.Args {
+					idl.DirectRefs(x.Type, mark)
+					val(x.Default)
+				}
+				for _, x := range fn.Throws {
+					idl.DirectRefs(x.Type, mark)
+				}
+			}
+		}
+	}
+	return ref
+}
+
+// stripAlways makes some included files hold (almost) nothing that is always
+// kept: their constants, typedefs and enums that nothing names are deleted, so
+// that includes which must disappear are not rare.
+func stripAlways(rt *rapid.T, p *idl.Program) {
+	for _, f := range p.Files[1:] {
+		if rapid.IntRange(0, 1).Draw(rt, "strip") != 0 {
+			continue
+		}
+		for changed := true; changed; {
+			changed = false
+			ref := referenced(p)
+			var keep []*idl.Def
+			for _, d := range f.Defs {
+				if (d.Kind == idl.KConst || d.Kind == idl.KTypedef || d.Kind == idl.KEnum) && !ref[d] {
+					changed = true
+					continue
+				}
+				keep = append(keep, d)
+			}
+			f.Defs = keep
+		}
+	}
+}
+
 func genCase(rt *rapid.T, entry string) drawn {
 	p := idl.Gen(rt, modelCfg(rt))
+	stripAlways(rt, p)
 	files := p.ReachableFiles()
 	// @preserve comments and the preserved list
 	var sls []*idl.Def
@@ -1344,7 +1492,7 @@ func genCase(rt *rapid.T, entry string) drawn {
 	if err != nil {
 		rt.Fatalf("harness: %v", err)
 	}
-	c := trimCase{Main: p.Files[0].Path, Files: map[string]string{}, Args: a, Entry: entry, Expect: exp}
+	c := trimCase{Main: p.Files[0].Path, Files: map[string]string{}, Args: a, Entry: entry, Expect: exp, Reference: info.reference}
 	txt := p.Texts(nil)
 	for _, f := range files {
 		c.Files[f.Path] = txt[f.Path]
